@@ -97,7 +97,13 @@ class Udf:
 def build(c, mon):
     from torchdata.nodes import ParallelMapper, Prefetcher
     src = make_source(c["xs"], c.get("src_err"), mon)
-    if c["kind"] == "pf":
+    if c["kind"] == "pf" and c.get("pin"):
+        import torch
+        from torchdata.nodes import PinMemory
+        if not torch.cuda.is_available():
+            torch.cuda.current_device = lambda: 0        # the constructor only records it; device=None never uses it
+        node = PinMemory(src, snapshot_frequency=c["sf"])
+    elif c["kind"] == "pf":
         node = Prefetcher(src, prefetch_factor=c["pf"], snapshot_frequency=c["sf"])
     else:
         node = ParallelMapper(src, Udf(c.get("add", 100), c.get("bad", []), c.get("nones", [])), num_workers=c["nw"], in_order=c["in_order"],
@@ -201,7 +207,7 @@ def run_case(c):
             super().__init__(target=target, args=args, name=name, daemon=daemon, kwargs=kwargs)
             num = int(self.name.split("#")[1])
             nm = name or ""
-            if "_populate_queue" in nm:
+            if "_populate_queue" in nm or "_pin_memory_loop" in nm:
                 objs["readers"] += 1
                 _gen_of[num] = f"R{objs['readers'] - 1}"
             elif "_apply_udf" in nm:
